@@ -346,6 +346,35 @@ fn task_job(specs: Vec<Spec>, len: usize, jumps: bool) -> Job {
         }
         let _ = now;
       }
+      // every wait a task asks the timer seam for is one of the durations it was
+      // configured with, exactly (a period silently clamped or rounded shows here
+      // even when it is shorter than a virtual tick)
+      if obs.viol.is_empty() {
+        let mut allowed: Vec<std::time::Duration> = vec![];
+        for t in tasks.iter() {
+          if let Some(d) = delay_of(t.spec.delay) {
+            allowed.push(d);
+          }
+          match t.spec.kind {
+            Kind::Repeat(p, _) => allowed.push(ticks(p)),
+            Kind::RepeatFirst(f, p, _) => {
+              allowed.push(ticks(f));
+              allowed.push(ticks(p));
+            }
+            _ => {}
+          }
+        }
+        if let Some(bad) = world::timer_log().iter().find(|r| !allowed.contains(&r.dur)) {
+          obs.fail(
+            "c19:unexpected-timer-duration",
+            format!(
+              "{specs:?} after [{}]: a timer of {:?} was requested; the configured delays and periods are {allowed:?}",
+              hist.join(" "),
+              bad.dur
+            ),
+          );
+        }
+      }
       if !obs.viol.is_empty() {
         break;
       }
@@ -412,7 +441,7 @@ pub fn plan(tier: Tier) -> Plan {
       prop: "C19".into(),
       tier: tier_name(tier),
       engine: "E1 opseq".into(),
-      rule: "sets of 1-3 harness tasks (OnceTask/NormalReturn, OnceTask/SubscribeReturn over a controllable subscription, RepeatTask declining after n ticks, FutureTask over a harness-resolved future; delays none/1/2 ticks) on the real LocalSpawner behind the gate: every action sequence up to the length bound over {cancel(i) (so: before the first poll, while waiting on the timer, between ticks, after completion), resolve future, tick, jump 3 ticks, run ready task k in any order}; oracle after every action: one-shot bodies at most once and not before delay (nor before their future), repeating bodies with consecutive sequence numbers at least one period apart, never after declining, and never silently stalled (also with a zero-length period and 12 rounds), nothing runs after unsubscribe() returned or after is_closed() answered true, produced subscription unsubscribed by handle teardown, and the handle of a subscribing task not closed while the subscription it made is open; non-trivial = a body ran".into(),
+      rule: "sets of 1-3 harness tasks (OnceTask/NormalReturn, OnceTask/SubscribeReturn over a controllable subscription, RepeatTask declining after n ticks, FutureTask over a harness-resolved future; delays none/1/2 ticks) on the real LocalSpawner behind the gate: every action sequence up to the length bound over {cancel(i) (so: before the first poll, while waiting on the timer, between ticks, after completion), resolve future, tick, jump 3 ticks, run ready task k in any order}; oracle after every action: one-shot bodies at most once and not before delay (nor before their future), repeating bodies with consecutive sequence numbers at least one period apart, never after declining, and never silently stalled (also with a zero-length period and 12 rounds), nothing runs after unsubscribe() returned or after is_closed() answered true, every timer request is exactly one of the configured delays / periods, produced subscription unsubscribed by handle teardown, and the handle of a subscribing task not closed while the subscription it made is open; non-trivial = a body ran".into(),
       bounds: json!({"task_configs": specs.len(), "len_one_task": l1, "len_two_tasks": l2, "len_three_tasks": l3, "clock_jumps": jumps}),
       assumptions: vec!["task bodies are atomic (single-threaded executor); overlapping bodies are E2's business".into()],
     },
